@@ -19,7 +19,7 @@ from common import Stream, budget, rng_for, to_gq, show, from_gq, canon_op_json
 TRUSTED = [
     'C19: numpy.log2 / math.log(x, 2) / floor / ceil on the generated inputs (eps * n = 2^-k with k <= 28, L/M < 2^40) are exact or decided with margin; the Model uses exact integer arithmetic',
     'C19: the number of rotation bits br of compute_cost / cost_sparse (arg-min of an arccos/sin expression) is a parameter of the Model observed from the implementation (verbose output, resp. solved from the ancilla count); np.pi * lam / (2 dE) is decided with the rational enclosure 3.14159265358 < pi < 3.14159265360 (cases it does not decide are discarded and counted)',
-    'C19: cost_estimator (surface-code physical costing) involves irrational powers (0.1 ** 1.5): no Model; only its integer bookkeeping is checked by the oracle stream',
+    'C19: cost_estimator (surface-code physical costing): the failure probabilities involve irrational powers (0.1 ** 1.5) and have no Model — which candidates pass the `failure <= 0.1` filter is observed from the implementation and handed to the Model of the selection loop; everything else (factory dimensions, footprints, rounds, storage area, qubit counts, selection) is modelled in exact integer / rational arithmetic (Model/C19Phys.lean) and compared on every candidate',
 ]
 ASSUMPTIONS = [
     'LCU coefficients are non-negative dyadic floats with a positive sum, 0 < epsilon < 1 dyadic; alias-table weights are non-negative integers whose sum is a multiple of their number',
@@ -28,10 +28,10 @@ ASSUMPTIONS = [
 ]
 OPEN_STATEMENTS = [
     'lambda_norm: CLOSED for real symmetric inputs. lambda_norm_spec (Model of lambda_norm = sum of |c| over the non-identity strings of the Model of jordan_wigner(DiagonalCoulombHamiltonian), all real, image acts like the Spec operator), pauli_decomposition_unique (trace orthogonality: the Spec oracle jwOneNorm of any fermionic operator equals the sum of |c| of any canonical Pauli form acting like it) and lambda_norm_oracle (jwOneNorm n (const + sum T a+a + sum V nn) false = some (lambda_norm)) hold for every n; the only hypothesis is the exact-run flag jwDCHOk of the Model transform, evaluated by the driver (c19.spec.dch_pauli_norm) on every generated real Hamiltonian. Hermitian one_body with imaginary entries: correspondence + oracle only (the Model of lambda_norm takes real matrices).',
-    'one_norm_spec (get_one_norm_int(_woconst) = 1-norm of the Jordan-Wigner coefficients for eight-fold symmetric integrals): open as a theorem — pauli_decomposition_unique reduces it to reading off the coefficients of the Model image jwInteractionOp of the spin-orbital Hamiltonian (identity, Z, ZZ, hopping strings with and without an extra / missing Z, four-letter strings, with all index coincidences), which is not done. PROVED so far (one_norm_identity_coefficient, all integrals, no symmetry): the identity coefficient Tr(H)/4^n of the Spec operator molOp is htilde, and get_one_norm_int = |htilde| + get_one_norm_int_woconst, i.e. _woconst drops exactly the identity term (also evaluated by the driver: c19.spec.identity_coef, c19.spec.mol_op). The non-identity part is checked exactly by the Spec oracle jwOneNorm (Pauli decomposition from the Spec ladder action on all Fock states) for n_orb <= 2 (3 on a sample).',
+    'one_norm_spec (get_one_norm_int(_woconst) = 1-norm of the Jordan-Wigner coefficients for eight-fold symmetric integrals): open as a theorem — pauli_decomposition_unique reduces it to reading off the coefficients of the Model image jwInteractionOp of the spin-orbital Hamiltonian (identity, Z, ZZ, hopping strings with and without an extra / missing Z, four-letter strings, with all index coincidences), which is not done. PROVED: one_norm_spec_partial — for every n, real symmetric h and Coulomb-type two-body integrals (g_pqrs = 0 unless s = p and r = q, g_pqqp = g_qppq; contains g = 0) the Model of get_one_norm_int_woconst equals the Spec oracle jwOneNorm of molOp (hypothesis: exact-run flag of the Model transform, evaluated by the driver op c19.spec.mol_coulomb on every generated Coulomb-type case); MISSING: exchange-type g_pqpq and general three- / four-index integrals. Also proved (one_norm_identity_coefficient, all integrals, no symmetry): the identity coefficient Tr(H)/4^n of the Spec operator molOp is htilde, and get_one_norm_int = |htilde| + get_one_norm_int_woconst, i.e. _woconst drops exactly the identity term (also evaluated by the driver: c19.spec.identity_coef, c19.spec.mol_op). The non-identity part is checked exactly by the Spec oracle jwOneNorm (Pauli decomposition from the Spec ladder action on all Fock states) for n_orb <= 2 (3 on a sample).',
     'mu: the Model computes the least mu with eps*n*2^mu >= 1 and that minimality is a theorem (sub_bit_precision_spec); the implementation returns mu+1 for eps*n = 2^-k with k in {29, 31, 39, 47, 51, 55, 58, 59, 62} because math.log(x, 2) is inexact there (not a violation of the property; such inputs are not generated).',
     'cost functions: PROVED beyond total = step x iterations: cost_sparse has a positive per-step cost for all parameters and its total is monotone in lam and 1/dE (sparse_total_monotone); compute_cost: per-step cost independent of lam, dE and total monotone when the per-step cost is non-negative (thc_total_monotone); QR2 / QI2 minimise over ALL k1, k2 >= 1 for table sizes <= 2^16 (qr2_global_minimiser, qi2_global_minimiser; larger tables: searched grid only).',
-    'compute_cost / cost_sparse: the number of rotation bits br (arg-min of an arccos/sin expression) and np.pi are outside the theorems (parameters / rational enclosure); the ancilla counts are covered by correspondence only. cost_estimator: no Model (irrational powers); oracle stream on its integer bookkeeping and grid minimality only.',
+    'compute_cost / cost_sparse: the number of rotation bits br (arg-min of an arccos/sin expression) and np.pi are outside the theorems (parameters / rational enclosure); the ancilla counts are covered by correspondence only. cost_estimator: Model for all its integer / rational arithmetic and theorem cost_estimator_select_spec for the selection loop (first strict minimum among the feasible layouts); the failure-probability filter (irrational powers) is outside the Model (observed), and no optimality statement beyond the searched grid is made.',
 ]
 
 
@@ -456,8 +456,15 @@ def as_dtype(rng, arr, kind):
     import numpy
     a = arr.astype({'float64': numpy.float64, 'float32': numpy.float32, 'int64': numpy.int64,
                     'int32': numpy.int32, 'complex128': numpy.complex128}[kind])
-    if rng.random() < 0.25:
+    r = rng.random()
+    if r < 0.25:
         a = numpy.asfortranarray(a)
+    elif r < 0.4 and a.ndim >= 1 and a.size:
+        # a non-contiguous view (every second entry of an array twice as large in every direction)
+        big = numpy.full(tuple(2 * d for d in a.shape), 77, dtype=a.dtype)
+        view = big[tuple(slice(None, None, 2) for _ in a.shape)]
+        view[...] = a
+        a = view
     return a
 
 
@@ -627,7 +634,7 @@ def stream_norms(ctx, of, lcu, gon):
                              'dtype': str(H.one_body.dtype)})
     n3 = 0
 
-    def query_one_norm(const, h, g, kind_h, kind_g, via, symmetric, extra=None, mol=None):
+    def query_one_norm(const, h, g, kind_h, kind_g, via, symmetric, extra=None, mol=None, arrays=None):
         """get_one_norm_int(_woconst) (or the MolecularData wrappers) against the Model and the Jordan-Wigner oracle"""
         nonlocal n3
         n = h.shape[0]
@@ -638,8 +645,13 @@ def stream_norms(ctx, of, lcu, gon):
         else:
             ckind = rng.choice(['float', 'float', 'float64', 'int' if float(const).is_integer() else 'float'])
             c_arg = numpy.float64(const) if ckind == 'float64' else int(const) if ckind == 'int' else const
-            a, e1 = call(gon.get_one_norm_int, c_arg, as_dtype(rng, h, kind_h), as_dtype(rng, g, kind_g))
-            w, e2 = call(gon.get_one_norm_int_woconst, as_dtype(rng, h, kind_h), as_dtype(rng, g, kind_g))
+            if arrays is not None:
+                # the caller's own array objects (the same objects are passed to both functions, and again after edits)
+                a, e1 = call(gon.get_one_norm_int, c_arg, arrays[0], arrays[1])
+                w, e2 = call(gon.get_one_norm_int_woconst, arrays[0], arrays[1])
+            else:
+                a, e1 = call(gon.get_one_norm_int, c_arg, as_dtype(rng, h, kind_h), as_dtype(rng, g, kind_g))
+                w, e2 = call(gon.get_one_norm_int_woconst, as_dtype(rng, h, kind_h), as_dtype(rng, g, kind_g))
         case = {'fn': 'get_one_norm_int', 'constant': const, 'one_body_integrals': h.tolist(), 'two_body_integrals': g.tolist(),
                 'dtypes': [kind_h, kind_g], 'via': via, 'constant_type': ckind, 'symmetric': symmetric}
         if extra:
@@ -685,19 +697,43 @@ def stream_norms(ctx, of, lcu, gon):
                 orc_a.append(('Spec.C19.molOp differs from the operator constant + h a+a + 1/2 g a+a+aa built by the harness',
                               {'op': 'c19.spec.mol_op', 'const': fr(const), 'h': hj, 'g': gj}, molop_ok))
         b.add(case, fr(xa), {'op': 'c19.one_norm', 'const': fr(const), 'h': hj, 'g': gj, 'woconst': False}, orc_a)
+        if extra and extra.get('coulomb_type'):
+            # one_norm_spec_partial: hypothesis (exact run of the Model transform on the spin-orbital matrices) and the
+            # 1-norm of the Model image, for every size
+            def coul_ok(ans, xw=xw):
+                if not isinstance(ans, dict):
+                    return False
+                if ans.get('ok') is not True:
+                    s.count('get_one_norm:coulomb-type:jw-model-run-not-exact')
+                    return True
+                return Fraction(ans['norm'][0], ans['norm'][1]) == xw
+            s.count('get_one_norm:coulomb-type')
+            orc_w.append(('get_one_norm_int_woconst differs from the 1-norm of the non-identity strings of the Model '
+                          'Jordan-Wigner image of the spin-orbital Hamiltonian (one_norm_spec_partial)',
+                          {'op': 'c19.spec.mol_coulomb', 'const': fr(const), 'h': hj, 'g': gj}, coul_ok))
         b.add(dict(case, fn='get_one_norm_int_woconst'), fr(xw), {'op': 'c19.one_norm', 'h': hj, 'g': gj, 'woconst': True}, orc_w)
     for _ in range(budget(t, 200, 1000)):
         n = rng.choice([1, 2, 2, 2, 3, 3, budget(t, 4, 5)])
         # integer-valued integrals are also given as numpy integer arrays (the accumulators of the code must not
         # inherit the integer dtype: 1/2 * g would be truncated), dyadic ones as float64 / float32
-        kind_h = rng.choice(['float64', 'float64', 'int64', 'int32', 'float32'])
-        kind_g = rng.choice([kind_h, kind_h, 'float64', 'int64'])
+        # complex128: complex-typed arrays holding real integrals
+        kind_h = rng.choice(['float64', 'float64', 'int64', 'int32', 'float32', 'complex128'])
+        kind_g = rng.choice([kind_h, kind_h, 'float64', 'int64', 'complex128'])
         ints = kind_h.startswith('int') or kind_g.startswith('int') or rng.random() < 0.2
         vals = VALS_INT if ints else VALS
         if not ints and kind_h == 'float64' and kind_g == 'float64' and rng.random() < 0.4:
             vals = small_vals(vals)
         symmetric = rng.random() < 0.8
-        if symmetric:
+        coulomb = symmetric and rng.random() < 0.3
+        if coulomb:
+            # Coulomb-type ("density-density") integrals: g[p, q, q, p] = J[p, q] symmetric, every other entry 0
+            # (the class of one_norm_spec_partial; contains g = 0)
+            h, J = sym_matrix(rng, n, vals), sym_matrix(rng, n, vals if rng.random() < 0.8 else [0])
+            g = numpy.zeros((n,) * 4)
+            for p_ in range(n):
+                for q_ in range(n):
+                    g[p_, q_, q_, p_] = J[p_, q_]
+        elif symmetric:
             h, g = sym_matrix(rng, n, vals), sym8_tensor(rng, n, vals)
         else:
             # (A) arbitrary real tensors (no symmetry): Model only (the function is then not the 1-norm of an operator)
@@ -711,7 +747,19 @@ def stream_norms(ctx, of, lcu, gon):
             import types
             mol = types.SimpleNamespace(nuclear_repulsion=const, one_body_integrals=as_dtype(rng, h, kind_h),
                                         two_body_integrals=as_dtype(rng, g, kind_g))
-        query_one_norm(const, h, g, kind_h, kind_g, via, symmetric, mol=mol)
+        arrays = None
+        if via == 'int' and kind_h == 'float64' and kind_g == 'float64' and rng.random() < 0.4:
+            arrays = (as_dtype(rng, h, kind_h), as_dtype(rng, g, kind_g))
+        query_one_norm(const, h, g, kind_h, kind_g, via, symmetric, {'coulomb_type': True} if coulomb else None, mol=mol,
+                       arrays=arrays)
+        if arrays is not None:
+            # the caller's arrays edited in place and passed again (same objects): answers must follow the new content
+            p_ = rng.randrange(n)
+            arrays[0][p_, p_] += 1.5
+            arrays[1][p_, p_, p_, p_] -= 0.75
+            s.count('get_one_norm:arrays-edited-in-place')
+            query_one_norm(const, numpy.array(arrays[0]), numpy.array(arrays[1]), kind_h, kind_g, via, symmetric,
+                           {'edited_in_place': True}, arrays=arrays)
         if mol is not None and kind_h == 'float64' and kind_g == 'float64' and rng.random() < 0.5:
             # the same object edited in place is answered according to its new content
             p_ = rng.randrange(n)
@@ -980,49 +1028,106 @@ def stream_costs(ctx, thc_cost, sparse_cost):
 
 
 def stream_physical(ctx, pc):
-    s = Stream('physical-costing', 'cost_estimator on the Toffoli / qubit counts of the repository tests and random ones: integer '
-               'bookkeeping of the returned estimate re-derived exactly (qubit count = storage + distillation area, duration = '
-               'rounds x 1 us) and minimality of qubits x duration over every candidate of the searched grid evaluated by the '
-               'implementation itself (no Model: irrational powers); non-trivial = every case')
+    s = Stream('physical-costing', 'deterministic arithmetic of physical_costing.py against the Model (C19Phys): '
+               '_autoccz_factory_dimensions on all 125 distance pairs of the loop (width, height; depth x l2 = rounds) and the '
+               'factory table of iter_known_factories (footprint, rounds) compared exactly; cost_estimator on the Toffoli / qubit '
+               'counts of the repository tests and random ones (Python and numpy integers): physical qubit count and rounds of '
+               'EVERY candidate layout (126 factories x 14 code distances) compared exactly with the Model, the feasibility of '
+               'every candidate (failure probability <= 0.1: irrational powers, no Model) observed and handed to the Model, the '
+               'selected layout compared with the Model selection loop; Spec: the returned layout is the first strict minimum '
+               'of qubits x duration among the feasible ones; non-trivial = every case')
     rng = rng_for(ctx.seed, 'c19-phys')
     harden(s, rng_for(ctx.seed, 'c19-phys-state'), rate_for(ctx))
     t = 'thorough' if ctx.drift else ctx.tier
     import datetime
-    import math
-    cases = [(2142, 5250145120), (2196, 31938980976), (2190, 88371052334)]
-    for _ in range(budget(t, 6, 40)):
+    import numpy
+    b = Batch(ctx, s)
+    # factory dimensions and table
+    for l1 in range(5, 25, 2):
+        for l2 in range(l1 + 2, 41, 2):
+            res, exc = call(pc._autoccz_factory_dimensions, l1, l2)
+            case = {'fn': '_autoccz_factory_dimensions', 'l1_distance': l1, 'l2_distance': l2}
+            s.case(case)
+            s.count('_autoccz_factory_dimensions')
+            if exc:
+                s.violate('unexpected exception ' + exc, case, {})
+                continue
+            w, hgt, d = res
+            # the depth is a float (may be rounded); what is used downstream is depth * l2 (rounds)
+            b.add(case, [int(w), int(hgt), fr(Fraction(d * l2))], {'op': 'c19.phys.dims', 'l1': l1, 'l2': l2},
+                  [])
+    facs, exc = call(lambda: list(pc.iter_known_factories(physical_error_rate=1.0e-3)))
+    case = {'fn': 'iter_known_factories', 'physical_error_rate': 0.001}
+    s.case(case)
+    if exc:
+        s.violate('unexpected exception ' + exc, case, {})
+        facs = []
+    else:
+        b.add(case, [[int(f.physical_qubit_footprint), fr(Fraction(f.rounds))] for f in facs], {'op': 'c19.phys.factories'})
+    # the Model returns depth, the implementation side above recorded depth * l2: convert the Model answer
+    dims_items = [it for it in b.items if it[0].get('fn') == '_autoccz_factory_dimensions']
+    other_items = [it for it in b.items if it[0].get('fn') != '_autoccz_factory_dimensions']
+    if dims_items:
+        ans = ctx.driver.run([it[2] for it in dims_items])
+        for (case, impl, _req, _o), m in zip(dims_items, ans):
+            l2 = case['l2_distance']
+            mm = None if m is None else [m[0], m[1], fr(Fraction(m[2][0], m[2][1]) * l2)]
+            if mm != impl:
+                s.disagree('factory dimensions differ', case, show(impl, 300), show(mm, 300))
+    b.items = other_items
+    b.flush()
+    dists = list(range(7, 35, 2))
+    # num_toffoli = 0: every candidate costs 0 rounds, so the tie rule of the loop (first minimum) decides
+    cases = [(2142, 5250145120), (2196, 31938980976), (2190, 88371052334), (1, 1), (3, 7), (5, 0), (100, 0)]
+    for _ in range(budget(t, 5, 40)):
         cases.append((rng.randint(100, 5000), rng.randint(10 ** 6, 10 ** 11)))
     for nq, nt in cases:
-        (res, exc) = call(pc.cost_estimator, nq, nt)
-        case = {'fn': 'cost_estimator', 'num_logical_qubits': nq, 'num_toffoli': nt}
+        kind = rng.choice(['int', 'int', 'int64'])
+        a_nq, a_nt = (numpy.int64(nq), numpy.int64(nt)) if kind == 'int64' else (nq, nt)
+        (res, exc) = call(pc.cost_estimator, a_nq, a_nt)
+        case = {'fn': 'cost_estimator', 'num_logical_qubits': nq, 'num_toffoli': nt, 'argument_types': kind}
         s.case(case)
         s.count('cost_estimator')
+        s.count('argument_types=' + kind)
         if exc:
             s.violate('unexpected exception ' + exc, case, {})
             continue
         best, params = res
+        # every candidate of the searched grid, evaluated by the implementation itself
+        cands, feas, best_idx = [], [], None
+        try:
+            for fi, fac in enumerate(facs):
+                for dist in dists:
+                    p_ = pc.AlgorithmParameters(physical_error_rate=1.0e-3,
+                                                surface_code_cycle_time=datetime.timedelta(microseconds=1),
+                                                logical_data_qubit_distance=dist, magic_state_factory=fac, toffoli_count=nt,
+                                                max_allocated_logical_qubits=nq, factory_count=4,
+                                                routing_overhead_proportion=0.5, proportion_of_bounding_box=1.0)
+                    c = p_.estimate_cost()
+                    us = c.duration // datetime.timedelta(microseconds=1)
+                    if c.duration != datetime.timedelta(microseconds=us):
+                        raise ValueError('duration is not a whole number of cycles')
+                    if params is not None and fac == params.magic_state_factory and dist == params.logical_data_qubit_distance \
+                            and best_idx is None:
+                        best_idx = len(cands)
+                    cands.append([int(c.physical_qubit_count), int(us)])
+                    feas.append(bool(c.algorithm_failure_probability <= 0.1))
+        except Exception as e:  # noqa: BLE001
+            s.violate('estimate_cost failed on a candidate: ' + type(e).__name__, case, {})
+            continue
         if best is None:
             s.count('no-feasible-layout')
-            continue
-        f = params.magic_state_factory
-        storage = int(math.ceil(Fraction(nq) * Fraction(3, 2)))
-        area = storage * 2 * (params.logical_data_qubit_distance + 1) ** 2 + 4 * f.physical_qubit_footprint
-        rounds = int(Fraction(nt) / 4 * Fraction(f.rounds))
-        if best.physical_qubit_count != area or best.duration != datetime.timedelta(microseconds=rounds):
-            s.violate('cost_estimator: qubit count / duration are not storage + distillation area, rounds x cycle time', case,
-                      {'returned': [best.physical_qubit_count, str(best.duration)], 'expected': [area, rounds]})
-        # minimality over the searched grid (implementation's own estimate of every candidate)
-        bestprod = best.physical_qubit_count * best.duration
-        for fac in pc.iter_known_factories(physical_error_rate=1.0e-3):
-            for dist in range(7, 35, 2):
-                p = pc.AlgorithmParameters(physical_error_rate=1.0e-3, surface_code_cycle_time=datetime.timedelta(microseconds=1),
-                                           logical_data_qubit_distance=dist, magic_state_factory=fac, toffoli_count=nt,
-                                           max_allocated_logical_qubits=nq, factory_count=4, routing_overhead_proportion=0.5,
-                                           proportion_of_bounding_box=1.0)
-                c = p.estimate_cost()
-                if c.algorithm_failure_probability <= 0.1 and c.physical_qubit_count * c.duration < bestprod:
-                    s.violate('cost_estimator: a feasible candidate of the searched grid is cheaper than the returned one', case,
-                              {'candidate': [fac.details, dist]})
+            impl_best = None
+        else:
+            us = best.duration // datetime.timedelta(microseconds=1)
+            impl_best = [best_idx, int(best.physical_qubit_count), int(us)]
+            if best_idx is None or best.duration != datetime.timedelta(microseconds=us):
+                s.violate('cost_estimator: the returned parameters are not one of the candidates of the searched grid', case, {})
+                continue
+        b.add(case, {'cands': cands, 'best': impl_best}, {'op': 'c19.phys.select', 'nq': nq, 'nt': nt, 'feasible': feas},
+              [('cost_estimator: the returned layout is not the first strict minimum of qubits x duration among the '
+                'feasible candidates', {'op': 'c19.spec.select', 'cands': cands, 'feasible': feas, 'res': impl_best}, is_true)])
+    b.flush()
     return s
 
 
@@ -1094,6 +1199,28 @@ def replay(ctx, payload):
                 lam, dE = pr[1], pr[3]
             it = d.one({'op': 'c19.iters', 'lam': fr(lam), 'dE': fr(dE)})
             return it is not None and res[1] == res[0] * it
+        if fn == 'cost_estimator':
+            import datetime
+            pc = importlib.import_module('openfermion.resource_estimates.surface_code_compilation.physical_costing')
+            nq, nt = case['num_logical_qubits'], case['num_toffoli']
+            best, params = pc.cost_estimator(nq, nt)
+            cands, feas, best_idx = [], [], None
+            for fac in pc.iter_known_factories(physical_error_rate=1.0e-3):
+                for dist in range(7, 35, 2):
+                    p_ = pc.AlgorithmParameters(physical_error_rate=1.0e-3,
+                                                surface_code_cycle_time=datetime.timedelta(microseconds=1),
+                                                logical_data_qubit_distance=dist, magic_state_factory=fac, toffoli_count=nt,
+                                                max_allocated_logical_qubits=nq, factory_count=4,
+                                                routing_overhead_proportion=0.5, proportion_of_bounding_box=1.0)
+                    c = p_.estimate_cost()
+                    if params is not None and fac == params.magic_state_factory \
+                            and dist == params.logical_data_qubit_distance and best_idx is None:
+                        best_idx = len(cands)
+                    cands.append([int(c.physical_qubit_count), int(c.duration // datetime.timedelta(microseconds=1))])
+                    feas.append(bool(c.algorithm_failure_probability <= 0.1))
+            res = None if best is None else [best_idx, int(best.physical_qubit_count),
+                                             int(best.duration // datetime.timedelta(microseconds=1))]
+            return d.one({'op': 'c19.spec.select', 'cands': cands, 'feasible': feas, 'res': res}) is True
         if fn == 'QR':
             k, val = ut.QR(case['L'], case['M'])
             return d.one({'op': 'c19.spec.qr', 'L': case['L'], 'M': case['M'], 'k': int(k), 'val': int(val), 'bound': 24}) is True
